@@ -72,6 +72,16 @@ pub enum Action {
     RevokeDel,
     Suspend1,
     Suspend2,
+    /// a second DELEGABLE authority of p1 with narrower bounds than GAll, for
+    /// one action GAll does not carry: [update], kinds=[proposition]
+    GUpdP,
+    /// ... [update], valid_until in 2020
+    GUpdExp,
+    /// ... [update], max_classification=public
+    GUpdPub,
+    /// Delegation p1 -> p2 listing the narrowly held action with broad bounds:
+    /// [read, search, update, export], unscoped, no conditions, no constraints
+    DelWide,
     /// Delegation co -> p2 (co is a second owner of the Space): bundle, unscoped, no parent
     CoDel,
     /// suspend / revoke the co-owner Principal
@@ -85,7 +95,7 @@ pub const QUICK_ALPHABET: &[Action] = &[
     Action::GAll, Action::GKind, Action::GType, Action::GClass, Action::GElem, Action::GCeil,
     Action::GMask, Action::GExpired, Action::GWrite, Action::GrpAdd2, Action::GGroup, Action::Del, Action::DelKind,
     Action::DelSys, Action::ReDel, Action::Pol1, Action::Pol2, Action::RevokeOld, Action::RevokeDel,
-    Action::Suspend1, Action::CoDel, Action::SuspendCo, Action::CoUnown,
+    Action::Suspend1, Action::CoDel, Action::SuspendCo, Action::CoUnown, Action::GUpdP, Action::DelWide,
 ];
 
 pub const FULL_ALPHABET: &[Action] = &[
@@ -94,6 +104,7 @@ pub const FULL_ALPHABET: &[Action] = &[
     Action::Del, Action::DelKind, Action::DelSys, Action::ReDel, Action::Pol1, Action::Pol2,
     Action::RevokeOld, Action::RevokeNew, Action::RevokeDel, Action::Suspend1, Action::Suspend2,
     Action::CoDel, Action::SuspendCo, Action::RevokeCo, Action::CoUnown,
+    Action::GUpdP, Action::GUpdExp, Action::GUpdPub, Action::DelWide,
 ];
 
 impl Action {
@@ -448,6 +459,24 @@ impl Cfg {
                     nexus.governance().revoke_delegation(self.deleg_rows[i], SYSTEM_PRINCIPAL).await.expect("machinery: revoke_delegation");
                 }
                 self.model.delegs[i].active = false;
+            }
+            Action::GUpdP => {
+                let s = Scope { kinds: strs(&["proposition"]), ..Default::default() };
+                self.grant(nexus, g(s, strs(&["update"]), Cond::default(), Cons::default(), true, 1, false)).await
+            }
+            Action::GUpdExp => {
+                let c = Cond { valid_until: EXPIRED.into(), ..Default::default() };
+                self.grant(nexus, g(Scope::default(), strs(&["update"]), c, Cons::default(), true, 1, false)).await
+            }
+            Action::GUpdPub => {
+                let c = Cons { max_class: "public".into(), ..Default::default() };
+                self.grant(nexus, g(Scope::default(), strs(&["update"]), Cond::default(), c, true, 1, false)).await
+            }
+            Action::DelWide => {
+                self.delegate(nexus, MDeleg {
+                    from: 1, to: 2, actions: strs(&["read", "search", "update", "export"]), scope: Scope::default(), cond: Cond::default(),
+                    cons: Cons::default(), parent: Parent::None, may_redelegate: false, active: true,
+                }).await
             }
             Action::CoDel => {
                 self.delegate(nexus, MDeleg {
